@@ -131,6 +131,10 @@ class GraphConstructor(object):
             for target_node in target_nodes:
                 self._graph.add(target_node)
                 source_node.link_relation(target_node, relation)
+        # An event may have objects for the relation target while
+        # lacking objects for the relation source.
+        for target_node in target_nodes:
+            self._graph.add(target_node)
         return nodes
 
     def _extract_time_span(self, event, event_type):
